@@ -6,6 +6,7 @@ import (
 	"fmt"
 	"os"
 	"runtime/pprof"
+	"sort"
 	"strconv"
 	"strings"
 	"time"
@@ -90,6 +91,20 @@ func cmdRun(args []string) int {
 	}
 	hr := runHarness(ld.Prog, cfg)
 	printSummary(hr)
+	if stepProf != nil {
+		type kv struct {
+			k string
+			v int
+		}
+		var l []kv
+		for k, v := range stepProf {
+			l = append(l, kv{k, v})
+		}
+		sort.Slice(l, func(i, j int) bool { return l[i].v > l[j].v })
+		for i := 0; i < len(l) && i < 40; i++ {
+			fmt.Printf("  steps %9d %s\n", l[i].v, l[i].k)
+		}
+	}
 	if len(hr.Res.Inconclusive) > 0 {
 		return 2
 	}
